@@ -79,7 +79,7 @@ def check(an, rep, tier):
                        ('PRE-TT', 'PRE-D', 'PRE-DOC')]
     rep.trusted = ['ttsa/npmodel.py, npcalls.py view-vs-copy table',
                    'python ast', 'documented-exception table in props/C09.py']
-    ds = (2, 3) if tier == 'quick' else (2, 3, 4)
+    ds = (2, 3) if tier == 'quick' else (2, 3, 4, 5)
     public = [f for f in prog.public]
     n_funcs = 0
     for fn in public:
